@@ -47,7 +47,16 @@ fn answer(line: &str) -> String {
             let b: u64 = it.next().unwrap().parse().unwrap();
             let a: u64 = it.next().unwrap().parse().unwrap();
             let f: u64 = it.next().unwrap().parse().unwrap();
-            guarded(|| verif::tsc_duration_since(b, a, f).to_string())
+            // both layers: the raw counter difference and the tagged wrapper the sample loop uses
+            guarded(|| {
+                let raw = verif::tsc_duration_since(b, a, f);
+                let wrapped = verif::timestamp_duration_since(b, a, f);
+                if raw == wrapped {
+                    raw.to_string()
+                } else {
+                    format!("TscTimestamp::duration_since={raw} but Timestamp::duration_since={wrapped}")
+                }
+            })
         }
         "F" => {
             let secs: u64 = it.next().unwrap().parse().unwrap();
